@@ -6,11 +6,41 @@ NOT_BUILT = "check not built yet in this round (see DESIGN.md section 3 for the 
 
 # id -> dict(level, technique, engine, text, note, design_ref); only properties whose check exists and is green
 CHECKS = {
- "C18": dict(level="model_checking", engine="E1-explicit-state",
+ "C18": dict(level="model_checking", engine="E1",
    technique="explicit-state enumeration of all set/get operation sequences (depth-bounded BFS order) on the real context types against a map model",
    text="Every sequence of register writes up to depth 2 (quick) / 3 (thorough) over all canonical names, documented aliases, extra accepted spellings and unknown names x 3 values, from two start states, for all 9 context types; in each reached state every accessor (trait and MinidumpContext dispatch, validity-set classes) is compared with a map-based reference. Complete within the bound; states/transitions reported.",
    note="Trusted: the alias tables transcribed from the documentation; values limited to 3 per write; the reference model (a BTreeMap).",
    design_ref="3/C18"),
+ "C02": dict(level="exploration", engine="E1",
+   technique="bounded-exhaustive model -> serialise -> parse round trip (4 variants: LE/BE x MemoryList/Memory64List) against the model and independently re-derived identifiers",
+   text="Every model of nine finite product spaces (module/CodeView menus, thread layouts for 9 CPUs, memory placements incl. top of address space, system/misc/exception menus, list lengths 0..40, stream presence, duplicate directory entries) is serialised through minidump-synth in both byte orders and both memory-list formats, parsed by the real library and compared with the model field by field, by address lookup of every region byte, with independently re-derived debug/code ids and versions, and across the four parses. Complete enumeration of the stated products, no sampling.",
+   note="Trusted: minidump-synth/test_assembler as serialiser, scroll derive symmetry for contexts synth cannot write, the hand-written reference derivations in c02.rs, debugid formatting. Known finding F18 (ELF build-id debug id differs LE vs BE).",
+   design_ref="3/C02"),
+ "C08": dict(level="exploration", engine="E1",
+   technique="bounded-exhaustive enumeration of entry sequences through all 12 range-table builders, brute-force differential against the input list",
+   text="All input-ordered sequences of <= 3 (thorough 4) entries over an address domain containing both ends of the address space, through every table builder (generic IntoRangeMapSafe, the parser-local copy via FUNC/line/CFI/WIN text, module, memory (both descriptors), memory-info, Linux-maps and unloaded-module lists, and the same read back from synthesised dumps); every lookup and iteration is compared with a brute-force filter over the input list (soundness, sortedness/disjointness, completeness for non-intersecting entries, exact set for unloaded modules).",
+   note="Trusted: the alphabet/address domain, each builder's documented own-range definition, identity tagging of entries.",
+   design_ref="3/C08"),
+ "C10": dict(level="model_checking", engine="E3",
+   technique="explicit-state model checking of the streaming buffer machine over all chunk schedules + trace conformance replay on the real parser (sync and async), scaled and real constants",
+   text="A Rust transition-system model of SymbolFile::parse/parse_async + circular::Buffer is searched (memoised, complete) over ALL reader schedules / body chunkings for every input of the families (1..3 lines at every buffer threshold +-1, with/without final newline, record files with each line corrupted, tiny inputs), in the scaled build (hook H1). It is bound to the code by replaying millions of schedules (every model-outcome witness, all fixed chunk sizes, trickle, every 1-deviation schedule, every split point, all compositions of tiny inputs) on the real sync and async parsers and requiring identical reads, callback slices and outcomes, plus the same conformance at the real constants in the stock build. Verdicts come from real-code observations; a pure model/code divergence is a machinery error.",
+   note="Trusted: the scaling hook (constants only), the abstraction of the line parser (validated by conformance), error identity not compared. Known finding F8 (no final newline: outcome depends on chunking).",
+   design_ref="3/C10"),
+ "C11": dict(level="exploration", engine="E1",
+   technique="bounded-exhaustive record-menu product of symbol files x every address x module bases, linear-scan reference model",
+   text="All symbol files of a menu product (FUNC placements/sizes, line tables incl. size 0 and line numbers 0/1/2, INLINE sets to depth 2 with multi-range/overlap/undefined origins, PUBLIC sets, STACK WIN parameter sizes) are parsed and queried at every offset -1..17 and three module bases through SymbolFile::fill_symbol, and end to end through walk_stack -> Symbolizer -> StackFrame; results equal a linear scan over the generator's records (exact when nothing overlaps, the statement's weaker promises otherwise).",
+   note="Trusted: the menus, the linear-scan reference and its overlap classifier; carve-outs listed in the evidence assumptions.",
+   design_ref="3/C11"),
+ "C12": dict(level="model_checking", engine="E2",
+   technique="stateless exhaustive exploration (DFS over all poll / IO-completion / bounded spurious-poll interleavings) of real futures sharing the real Symbolizer under a controlled scheduler",
+   text="Every schedule of a hand-rolled single-threaded executor (poll any woken task, complete any pending supplier IO, spurious polls within a budget) is executed on a fresh real Symbolizer for every configuration (task-symmetric multisets of 2..3 [thorough 4] task scripts over fill_symbol/walk_frame/get_file_path x colliding module keys, supplier suspensions 0..2 [3], answers Ok/NotFound/ParseError). Oracle per execution: supplier asked at most once per module, every requester sees the scripted outcome, no deadlock/lost wake-up, pending counters and stats entries; replay determinism asserted. No deviation cap: complete within the configurations.",
+   note="Trusted: poll bodies are atomic (single-threaded executor); real-thread interleavings inside std/futures-util primitives are assumed linearizable (loom/shuttle cannot intercept them here); cancellation excluded by the property.",
+   design_ref="3/C12"),
+ "C17": dict(level="exploration", engine="E1",
+   technique="exhaustive enumeration of all short strings over a path alphabet through every lookup function, textual path-containment oracle",
+   text="Every name of length <= 5 (thorough 6) over {a . / \\ : C NUL e-acute} as debug_file and as code_file (other field from a menu), all pairs of strings <= 3, id menus, real MinidumpModules read back from synthesised dumps; every public lookup function (breakpad_sym_lookup, code_info_breakpad_sym_lookup, extra_debuginfo_lookup, binary_lookup, lookup x 3 kinds, moz_lookup); each returned cache/server path is judged textually (no leading separator, no drive prefix, no '..' component) and by a lexical join onto a root.",
+   note="Trusted: the textual classifier. F11 (empty / '.' / '..' / drive-prefixed leaves) was found by this check and repaired (fix commit recorded in known_findings.json).",
+   design_ref="3/C17"),
 }
 
 ALL = ["C%02d" % i for i in range(1, 21)]
